@@ -42,6 +42,11 @@ def cases(tier, seed, phase):
     # a retry lands in front of the timetable while the scheduler is held up spawning on a full store pool
     yield {'script': ['enq', ['holdget', 39], 'tick', 'mixed', ['relget'], 'ok', 'ok', 'ok'], 'backoff': [0, 3, None], 'preload': 2, 'pools': [1, 4],
            'nmsg': 1, 'seed': 0, 'idorder': 'desc'}
+    # a (stale) announcement arrives while _retry_later is inside store.set_timestamp
+    for mode in ('before', 'after'):
+        for bo in ([5, 5, None], [0, 3, None]):
+            yield {'script': ['enq', ['holdts', 0, mode], 'temp', 'announce', ['relts'], 'tick', 'ok'], 'backoff': bo, 'preload': 0, 'pools': None,
+                   'nmsg': 1, 'seed': 0, 'idorder': 'asc', 'stale': True}
     for j in range(9000 if tier == 'quick' else 150000):
         def mk(j=j):
             rng = rng_for(seed, 'c12', j)
@@ -113,10 +118,14 @@ class Run(object):
         self.ctx = None
         self.in_retry_g = set()
         self.backoff_of = {}
+        self.when_of = {}
         self.flushes = []
         self.nlabels = 0
         self.get_holds = {}
         self.write_holds = {}
+        self.ts_holds = {}          # k -> (Event, 'before' | 'after'): store.set_timestamp of k yields
+        self.ts_waiting = set()     # k whose set_timestamp is currently held
+        self.orig_ts = {}
         self.last_flush_label = -1
         self.last_ts_set = {}     # k -> label index when its timestamp was last written
         self.flushed_since = {}   # k -> True if a flush took it out of the timetable since the last timestamp write
@@ -192,6 +201,7 @@ def run_case(case, model):
             R.kid[id] = k
             R.idk[k] = id
             R.log('w%d:%d' % (k, R.rel(ts)))
+            R.orig_ts[k] = ts
             R.written_pending.add(k)
             R.last_ts_set[k] = R.nlabels
             h = R.write_holds.get(k)
@@ -214,7 +224,23 @@ def run_case(case, model):
             R.log('d%d:%s' % (k, cause))
             R.cur_cause = cause
             return ret
-        store.write, store.get = write, get
+        orig_set_ts = store.set_timestamp
+
+        def set_timestamp(id, ts):
+            k = R.kid.get(id, 99)
+            R.when_of[gevent.getcurrent()] = ts
+            h = R.ts_holds.get(k)
+            if h is not None and h[1] == 'before':
+                R.ts_waiting.add(k)
+                h[0].wait()
+                R.ts_waiting.discard(k)
+            r = orig_set_ts(id, ts)
+            if h is not None and h[1] == 'after':
+                R.ts_waiting.add(k)
+                h[0].wait()
+                R.ts_waiting.discard(k)
+            return r
+        store.write, store.get, store.set_timestamp = write, get, set_timestamp
 
         class FakeRelay(Relay):
             def attempt(self, env, attempts):
@@ -317,7 +343,9 @@ def run_case(case, model):
             finally:
                 R.in_retry_g.discard(gevent.getcurrent())
                 w = R.backoff_of.pop(gevent.getcurrent(), 'unset')
-                R.log('r%d:%s' % (k, '-' if w is None else int(w)))
+                when = R.when_of.pop(gevent.getcurrent(), None)
+                # the label carries the due time the call chose (the time it read when it started + the backoff's answer)
+                R.log('r%d:%s' % (k, '-' if w is None or when is None else R.rel(when)))
                 R.last_ts_set[k] = R.nlabels
                 R.flushed_since[k] = False
 
@@ -371,7 +399,7 @@ def run_case(case, model):
         def observe(action):
             settle()
             R.actions.append(action)
-            R.chunks.append((R.labels, snapshot()))
+            R.chunks.append((R.labels, None if R.ts_waiting else snapshot()))
             R.labels = []
             monitors(action)
 
@@ -383,7 +411,7 @@ def run_case(case, model):
 
         def monitors(action):
             # never forgotten / due dispatch, at quiescence (nothing held)
-            if R.get_holds or R.write_holds:
+            if R.get_holds or R.write_holds or R.ts_holds:
                 return
             if pools and (len(q.store_pool) > 0 or q.relay_pool.free_count() == 0):
                 return      # with bounded pools a hand-off may legitimately wait for a slot
@@ -477,8 +505,10 @@ def run_case(case, model):
             if not ks:
                 return False
             k, id = ks[rng.randrange(len(ks))]
-            ann.put((store.meta_db[id]['timestamp'], id))
-            observe(['announce', k])
+            stale = k in R.orig_ts and (case.get('stale') or rng.random() < 0.4)
+            # a stale announcement (the timestamp of the original write, as a Redis queue entry carries it) of a message the queue knows
+            ann.put((R.orig_ts[k] if stale else store.meta_db[id]['timestamp'], id))
+            observe(['announce', k, 'stale' if stale else 'current'])
             return True
 
         def act_holdget():
@@ -488,7 +518,21 @@ def run_case(case, model):
             R.get_holds[ks[rng.randrange(len(ks))]] = Event()
             return True
 
+        def act_holdts(k=None, mode=None):
+            ks = [x for x in sorted(R.inflight) if x not in R.ts_holds]
+            if k is None:
+                if not ks:
+                    return False
+                k = ks[rng.randrange(len(ks))]
+            R.ts_holds[k] = (Event(), mode or rng.choice(['before', 'after']))
+            return True
+
         def act_release_hold():
+            if R.ts_holds and (R.ts_waiting or not (R.write_holds or R.get_holds)):
+                k = sorted(R.ts_holds)[0]
+                R.ts_holds.pop(k)[0].set()
+                observe(['relts', k])
+                return True
             if R.write_holds:
                 k = sorted(R.write_holds)[0]
                 R.write_holds.pop(k).set()
@@ -519,6 +563,10 @@ def run_case(case, model):
                     R.get_holds[a[1]] = Event()
                 elif isinstance(a, list) and a[0] == 'relget':
                     act_release_hold()
+                elif isinstance(a, list) and a[0] == 'holdts':
+                    act_holdts(a[1], a[2])
+                elif isinstance(a, list) and a[0] == 'relts':
+                    act_release_hold()
         else:
             for _ in range(case['steps']):
                 r = rng.random()
@@ -532,16 +580,20 @@ def run_case(case, model):
                     act_flush()
                 elif r < 0.88:
                     act_announce() or act_tick()
-                elif case.get('holds') and r < 0.94:
+                elif case.get('holds') and r < 0.91:
                     act_holdget()
+                elif case.get('holds') and r < 0.95:
+                    act_holdts()
                 else:
                     act_release_hold() or act_tick(True)
         while act_release_hold():
             pass
         observe(['end'])
         # ---- monitors over the whole run
+        saturated = bool(pools) and (q.store_pool.free_count() == 0 or q.relay_pool.free_count() == 0)
         for g in R.flushes:
-            if not g.ready():
+            # a flush that waits for a slot of a saturated bounded pool is what bounded pools mean; waiting on the scheduler loop is not
+            if not g.ready() and not saturated:
                 hits.append(hit('c12.flush-does-not-return', 'flush() is still blocked at quiescence (it waits on the scheduler loop)',
                                 observed={'state': snapshot(), 'actions': R.actions[-6:]}))
                 break
@@ -568,6 +620,11 @@ def run_case(case, model):
         mismatch = None
         for i, (ls, snap) in enumerate(R.chunks):
             ms = mstates[i] if i < len(mstates) else 'missing'
+            if snap is None:
+                if ms.startswith('disabled') or ms.startswith('bad-label') or ms == 'missing':
+                    mismatch = {'op': 'sched run', 'chunk': i, 'labels': ','.join(ls)[:300], 'model': ms, 'trace': text[:1500]}
+                    break
+                continue            # a storage call inside _retry_later is held: the atomic section is split, states are compared after it
             if pools and not ms.startswith('disabled'):
                 # a scheduler blocked in a spawn on a full pool is neither asleep nor awake: compare the timetable only
                 ms, snap = ms.split(' wake=')[0], snap.split(' wake=')[0]
@@ -580,7 +637,7 @@ def run_case(case, model):
         for pfx, name in (('r', 'retry'), ('f', 'flush'), ('n', 'announce'), ('R', 'remove'), ('d', 'dequeue')):
             if any(l.startswith(pfx) for l in alll):
                 tags.append('label:' + name)
-        if any(l.startswith('r') and l.endswith(':0') for l in alll):
+        if 0 in case['backoff']:
             tags.append('backoff-0')
         nontrivial = any(l.startswith('r') or l == 'f' for l in alll)
         key = (str(case.get('script')), case['seed'], case.get('idorder'), tuple(str(x) for x in case['backoff']), case.get('preload'), str(pools), case['nmsg'], case.get('steps'),
